@@ -423,6 +423,161 @@ def check_cbor(run):
 
 
 # =============================================================================================
+# Base64
+
+B64_PREAMBLE = "From PK Require Import Lib.Bytes Lib.Check Lib.Base64 Lib.Base64Check.\nOpen Scope N_scope.\n"
+B64_TARGETS = ["theories/Lib/Base64Check.vo"]
+ALNUM = "ABCDEFGHIJKLMNOPQRSTUVWXYZabcdefghijklmnopqrstuvwxyz0123456789"
+URL_ALPHA, STD_ALPHA = ALNUM + "-_", ALNUM + "+/"
+
+
+def opt_blit(h):
+    return "None" if h is None else "(Some %s)" % blit(bytes.fromhex(h))
+
+
+def check_base64(run):
+    t0 = time.time()
+    rng, tier = run.rng, run.tier
+    common.coq_build(B64_TARGETS)
+    binary = common.harness_build("lib")
+    # ---- encoders: every length 0..66, random and extreme contents
+    datas = []
+    per_len = 4 if tier == "quick" else 40
+    for n in range(0, 67):
+        datas += [bytes(n), b"\xff" * n, bytes((0xFB, 0xEF, 0xBE)[i % 3] for i in range(n)),    # '+' and '-' only / '/' and '_' heavy
+                  bytes((0xFF, 0xFF, 0xFE)[i % 3] for i in range(n))]
+        datas += [bytes(rng.randrange(256) for _ in range(n)) for _ in range(per_len)]
+    datas += [bytes(rng.randrange(256) for _ in range(n)) for n in (100, 255, 256, 1000)]
+    enc_in = [{"op": "b64enc", "data": d.hex()} for d in datas]
+    enc_out = common.harness_run(binary, enc_in)
+    terms, info = [], []
+    strings = []
+    for d, c, o in zip(datas, enc_in, enc_out):
+        if "url" not in o:
+            fail("base64", "encoder crashed", [{"case": c, "observed": o}])
+        terms.append("BEnc %s %s %s %s" % (blit(d), blit(bytes.fromhex(o["url"])), blit(bytes.fromhex(o["std"])),
+                                           blit(bytes.fromhex(o["bytes_into_string"]))))
+        info.append((c, o))
+        strings.append((bytes.fromhex(o["url"]).decode(), bytes.fromhex(o["std"]).decode()))
+    n_enc = len(terms)
+    # ---- decoders
+    dec = [c["s"] for c in corpus("b64dec")]
+    def add(s):
+        dec.append(s.encode().hex())
+    for u, sd in strings[: (400 if tier == "quick" else len(strings))]:
+        pad = "=" * (-len(u) % 4)
+        for x in (u, sd):
+            add(x); add(x + pad); add(x + "="); add(x + "=====")
+            if x:
+                add(x[:-1])                                            # drops a character: length / trailing bits change
+                i = rng.randrange(len(x))
+                add(x[:i] + rng.choice("-_+/= \n.*\u00e9A") + x[i + 1:])   # one character replaced
+                add(x[:i] + "=" + x[i:])                               # padding in the middle
+                add(x[:-1] + rng.choice(URL_ALPHA))                    # non-canonical trailing bits
+                add(x[:-1] + rng.choice(STD_ALPHA))
+    for s_ in ("", "=", "==", "====", "A", "A=", "A===", "AA", "AA=", "AA==", "AAA", "AAA=", "AAAA", "AAAA=", "AAAAA",
+               "QQ", "QR", "QUI", "QUJ", "QUIC", "-_", "+/", "-/", "+_", "-_-_", "+/+/", "+/-_", "Zg", "Zm8", "Zm9v",
+               "Zm9vYg", "Zm9vYmE", "Zm9vYmFy", " QQ", "QQ ", "Q Q", "QQ\n", "QQ\r\n", "\u00e9", "QQ\u00e9", "\u00e9==",
+               "=QQ", "Q=Q", "QQ=Q", "QQ==QQ==", "!", "AA!A", "AA\x00A", "\x00", "AA\x7f", "////", "____", "++++", "----",
+               "/w", "_w", "/x", "_x", "+A", "-A", "+B", "-B", "AA-", "AA+", "AA_", "AA/", "AB-", "AB+"):
+        add(s_)
+    for a in URL_ALPHA + "+/=":                                        # every 2-character string of the joint alphabet
+        for b in URL_ALPHA + "+/=":
+            add(a + b)
+    n3 = 600 if tier == "quick" else 20000
+    for _ in range(n3):                                               # 3- and 7-character strings: trailing 2 bits
+        add("".join(rng.choice(URL_ALPHA + "+/") for _ in range(rng.choice([3, 7]))))
+    for _ in range(1200 if tier == "quick" else 30000):
+        n = rng.randrange(0, 24)
+        alpha = rng.choice([URL_ALPHA, STD_ALPHA, ALNUM, URL_ALPHA + "+/", URL_ALPHA + "=", STD_ALPHA + "= \n"])
+        add("".join(rng.choice(alpha) for _ in range(n)) + "=" * rng.choice([0, 0, 0, 1, 2, 3]))
+    for _ in range(200 if tier == "quick" else 5000):                 # arbitrary text
+        add("".join(chr(rng.choice([rng.randrange(32, 127), rng.randrange(0, 0x250)])) for _ in range(rng.randrange(0, 12))))
+    dec_in = [{"op": "b64dec", "s": h} for h in dec]
+    dec_out = common.harness_run(binary, dec_in)
+    hist = {}
+    for c, o in zip(dec_in, dec_out):
+        if "url" not in o:
+            fail("base64", "decoder panicked/crashed", [{"case": c, "observed": o}])
+        terms.append("BDec %s %s %s" % (blit(bytes.fromhex(c["s"])), opt_blit(o["url"]), opt_blit(o["bytes"])))
+        info.append((c, o))
+        k = ("url" if o["url"] is not None else "std-only" if o["bytes"] is not None else "rejected")
+        hist[k] = hist.get(k, 0) + 1
+    res = common.coq_eval("LIBB64", B64_PREAMBLE, terms, ["agree"], shard=800, shard_chars=200000)
+    if res["agree"]:
+        bad = [{"case": info[i][0], "observed": info[i][1],
+                "model": common.coq_show("LIBB64", B64_PREAMBLE, "match %s with BDec s _ _ => (try_from_base64url s, try_from_base64 s, []) | BEnc b _ _ _ => (None, None, b64url_encode b) end" % terms[i])[-800:]}
+               for i in res["agree"][:5]]
+        fail("base64", "model (Lib/Base64.v) and passkey-types::encoding disagree on %d of %d cases" % (len(res["agree"]), len(terms)), bad)
+    sig = set()
+    for c, o in info[n_enc:]:
+        s_ = bytes.fromhex(c["s"])
+        sig.add((len(s_.rstrip(b"=")) % 4, len(s_) - len(s_.rstrip(b"=")) > 0, o["url"] is not None, o["bytes"] is not None,
+                 b"+" in s_ or b"/" in s_, b"-" in s_ or b"_" in s_, min(len(s_), 12)))
+    for c, o in info[:n_enc]:
+        sig.add(("enc", len(c["data"]) // 2))
+    return {"domain": "base64 (data-encoding via passkey-types::encoding, Bytes::try_from)", "evaluations": len(terms),
+            "enc_cases": n_enc, "enc_lengths": "0..66 + 100,255,256,1000", "dec_cases": len(dec_in), "dec_outcomes": hist,
+            "disagreements": 0, "distinct_nontrivial": len(sig), "literal_bytes": sum(len(t) for t in terms),
+            "wall_s": round(time.time() - t0, 1)}
+
+
+# =============================================================================================
+# SHA-256 / HMAC-SHA-256
+
+HASH_PREAMBLE = "From PK Require Import Lib.Bytes Lib.Check Lib.Sha256 Lib.Hmac Lib.HashCheck.\nOpen Scope N_scope.\n"
+HASH_TARGETS = ["theories/Lib/HashCheck.vo"]
+
+
+def check_hash(run):
+    t0 = time.time()
+    rng, tier = run.rng, run.tier
+    common.coq_build(HASH_TARGETS)
+    binary = common.harness_build("lib")
+    rb = lambda n: bytes(rng.randrange(256) for _ in range(n))
+    msgs = [bytes.fromhex(c["data"]) for c in corpus("sha256")]
+    lens = list(range(0, 131)) + [183, 184, 191, 192, 193, 247, 248, 255, 256, 257, 1000, 4096]
+    if tier == "thorough":
+        lens += list(range(131, 400)) + [10000, 65536]
+    for n in lens:
+        msgs.append(rb(n))
+        if n in (0, 1, 55, 56, 57, 63, 64, 65, 119, 120, 121, 127, 128, 129):
+            msgs += [bytes(n), b"\xff" * n, b"\x80" * n, rb(n)]
+    for _ in range(0 if tier == "quick" else 600):
+        msgs.append(rb(rng.randrange(0, 300)))
+    hm = [(bytes.fromhex(c["key"]), bytes.fromhex(c["data"])) for c in corpus("hmac")]
+    klens = [0, 1, 16, 20, 32, 63, 64, 65, 100, 128, 131, 200]
+    mlens = [0, 1, 32, 55, 56, 63, 64, 65, 119, 120, 200]
+    for k in klens:
+        for m in (mlens if tier == "thorough" else rng.sample(mlens, 5)):
+            hm.append((rb(k), rb(m)))
+    hm += [(b"", b""), (b"\x00" * 64, b""), (b"\x00" * 65, b"\x00"), (b"\x36" * 64, b"\x5c" * 64), (b"\xff" * 64, b"\xff" * 64)]
+    for _ in range(30 if tier == "quick" else 500):
+        hm.append((rb(rng.choice([rng.randrange(0, 64), 64, rng.randrange(65, 140), 32])), rb(rng.randrange(0, 150))))
+    cases = [{"op": "sha256", "data": m.hex()} for m in msgs] + [{"op": "hmac", "key": k.hex(), "data": m.hex()} for k, m in hm]
+    outs = common.harness_run(binary, cases)
+    terms = []
+    for c, o in zip(cases, outs):
+        if "h" not in o:
+            fail("hash", "sha2/hmac crate crashed", [{"case": c, "observed": o}])
+        h = blit(bytes.fromhex(o["h"]))
+        if c["op"] == "sha256":
+            terms.append("HSha %s %s" % (blit(bytes.fromhex(c["data"])), h))
+        else:
+            terms.append("HHmac %s %s %s" % (blit(bytes.fromhex(c["key"])), blit(bytes.fromhex(c["data"])), h))
+    res = common.coq_eval("LIBHASH", HASH_PREAMBLE, terms, ["agree"], shard=40, shard_chars=60000)
+    if res["agree"]:
+        fail("hash", "model (Lib/Sha256.v, Lib/Hmac.v) and sha2/hmac disagree on %d of %d cases" % (len(res["agree"]), len(terms)),
+             [{"case": cases[i], "observed": outs[i]} for i in res["agree"][:5]])
+    blocks = sum((len(m) + 9 + 63) // 64 for m in msgs) + sum(((max(len(m), 0) + 64 + 9 + 63) // 64) + 2 + ((len(k) + 9 + 63) // 64 if len(k) > 64 else 0) for k, m in hm)
+    sig = set(("sha", len(m)) for m in msgs) | set(("hmac", min(len(k), 66) if len(k) < 67 else 67, (len(m) + 9 + 63) // 64) for k, m in hm)
+    return {"domain": "sha256 / hmac-sha256 (crates sha2, hmac)", "evaluations": len(terms), "sha_cases": len(msgs), "hmac_cases": len(hm),
+            "sha_lengths": "every length 0..130, block boundaries 55/56/63/64/119/120/127/128 with extreme fills, up to 4096",
+            "hmac_key_lengths": klens, "compression_calls": blocks, "disagreements": 0, "distinct_nontrivial": len(sig),
+            "literal_bytes": sum(len(t) for t in terms), "wall_s": round(time.time() - t0, 1)}
+
+
+# =============================================================================================
 # stand-alone
 
 def main(argv):
@@ -445,7 +600,7 @@ def main(argv):
     return rc
 
 
-EXTRA_CHECKS = {}
+EXTRA_CHECKS = {"base64": check_base64, "hash": check_hash}
 
 if __name__ == "__main__":
     sys.exit(main(sys.argv))
